@@ -111,12 +111,10 @@ SAFE = {
     ('prophyc.model:evaluate_sizes.evaluate_member_size', '_v0.byte_size, _v0.alignment = _v1'): TUPLE2,
     ('prophyc.model:evaluate_sizes.evaluate_union_size', 'int((_v0.byte_size + _v0.alignment - 1) / _v0.alignment)'):
         'int() of a finite float quotient cannot raise ValueError',
-    ('prophyc.model:evaluate_sizes.evaluate_struct_size', '(_v0 - _v1 % _v0) % _v0'): ALIGN,
-    ('prophyc.model:evaluate_sizes.evaluate_struct_size', '(_v0.alignment - _v1 % _v0.alignment) % _v0.alignment'): ALIGN,
-    ('prophyc.model:evaluate_sizes.evaluate_struct_size', '_v0 % _v1'): ALIGN,
-    ('prophyc.model:evaluate_sizes.evaluate_struct_size', '_v0 % _v1.alignment'): ALIGN,
-    ('prophyc.model:evaluate_sizes.evaluate_struct_size', '_v0.byte_size % _v1'): ALIGN,
-    ('prophyc.model:evaluate_sizes.evaluate_union_size', '(_v0.byte_size + _v0.alignment - 1) / _v0.alignment'): ALIGN,
+    # every division of the two sizing functions divides by an alignment (an attribute `.alignment` of an evaluated member / node,
+    # or the local maximum of such alignments): one reason for any spelling of the padding and round-up arithmetic
+    ('prophyc.model:evaluate_sizes.evaluate_struct_size', r'DIVISOR ~ (^|\.)alignment$'): ALIGN,
+    ('prophyc.model:evaluate_sizes.evaluate_union_size', r'DIVISOR ~ (^|\.)alignment$'): ALIGN,
     ('prophyc.model:_check_acyclic_dependencies', 'graph[dep]'):
         'dep is filtered by `dep in available`; available is the set of node names and every node name gets a graph entry',
     ('prophyc.model:_check_acyclic_dependencies', 'graph[start]'): 'start iterates over the keys of graph',
